@@ -245,6 +245,18 @@ def frames_and_lifetime(rec, hub, U, letters, rng, exhaustive):
         rec.event(MF, sig=f"from_df-cols|{p}", cls="from_df|columns-permuted")
         if not np.array_equal(y2.values, x.values):
             rec.violation(MF, "from_df:entries-depend-on-the-frame's-column-order", {"columns": cols})
+        # one dimension column without its name (recognised through its items; it stands first), the others named
+        for anon in ((U[p[0]].name, U[p[-1]].name) if len(full) >= 2 else ()):
+            df4 = base_df.rename(columns={anon: "first"})
+            df4 = df4[["first"] + [c for c in df4.columns if c not in ("first", "value")] + ["value"]]
+            rec.event(MF, sig=f"from_df-mixed-header|{p}", cls="from_df|one-column-identified-by-items")
+            try:
+                y5 = fd.FlodymArray.from_df(dims=xp.dims, df=df4)
+                d = same_entries(truth, labelled(y5), True, 1.0)
+                if d is not None:
+                    rec.violation(MF, "from_df:entries-depend-on-the-array's-storage-order:column-identified-by-items", {"order": list(p), "unnamed_column_holds": anon, "diff": list(d[1:])})
+            except Exception as e:
+                rec.violation(MF, "from_df:raised-for-a-column-identified-by-items", {"order": list(p), "exc": repr(e)[:200]})
         # the same with rows missing (allow_missing_values): present rows under their labels, absent ones zero - in every order of the
         # array's dimensions and of the frame's columns; also the sparse export of the permuted array read back
         if len(base_df) > 2:
